@@ -13,7 +13,11 @@ Proved (tables with any number of columns, any rows):
   only when the column becomes NOT NULL with a default and its nullability/default changed
   (`backfill_only_null`), and then by that default;
 * `renamed_column_preserved` — a renamed column carries the values of the old name;
-* `generated_and_added_not_copied` — generated and added columns never appear in the INSERT.
+* `generated_and_added_not_copied` — generated and added columns never appear in the INSERT;
+* `plan_covers_surviving_columns` — every column of the new table that is neither generated nor
+  added is a target of the INSERT (none is left to its default);
+* `plan_targets_distinct` / `plan_in_column_order` — the INSERT names no column twice and lists its
+  targets in the order of the new table's columns.
 
 PARTIAL: the in-place path (ALTER TABLE ADD COLUMN / CREATE INDEX / DROP INDEX) does not rewrite
 rows at all — that is SQLite's behaviour, observed by the monitor; foreign-key side effects of the
@@ -131,5 +135,71 @@ def toCols : List ToCol :=
 
 example : copyPlan toCols = [(1, .col 1), (2, .ifnull 2)] := by decide
 example : copyRow (copyPlan toCols) (fun _ => 9) (fun _ => none) (fun n => if n = 1 then some 5 else none) 2 = some 9 := by decide
+
+theorem srcOf_fst (c : ToCol) (p : Nat × Src) (h : srcOf c = some p) : p.1 = c.name := by
+  unfold srcOf at h
+  split at h
+  · cases h
+  · split at h
+    · cases h
+    · cases h; rfl
+    · cases h; rfl
+    · cases h; rfl
+
+/-- **plan_covers_surviving_columns**: every column of the new table that is neither generated nor
+added is a target of the INSERT — no surviving column is left to its default. -/
+theorem plan_covers_surviving_columns (to : List ToCol) (c : ToCol) (hc : c ∈ to)
+    (hg : c.generated = false) (ha : c.change ≠ .added) : ∃ s, (c.name, s) ∈ copyPlan to := by
+  unfold copyPlan
+  cases hch : c.change with
+  | added => exact absurd hch ha
+  | none => exact ⟨.col c.name, List.mem_filterMap.mpr ⟨c, hc, by simp [srcOf, hg, hch]⟩⟩
+  | modified ch =>
+    exact ⟨if c.notNull && c.hasDefault && ch then .ifnull c.name else .col c.name,
+      List.mem_filterMap.mpr ⟨c, hc, by simp [srcOf, hg, hch]⟩⟩
+  | renamed f => exact ⟨.col f, List.mem_filterMap.mpr ⟨c, hc, by simp [srcOf, hg, hch]⟩⟩
+
+/-- **plan_targets_distinct**: the column list of the INSERT names no column twice (for tables of any width). -/
+theorem plan_targets_distinct : ∀ (to : List ToCol), (to.map (·.name)).Nodup →
+    ((copyPlan to).map (·.1)).Nodup := by
+  intro to
+  induction to with
+  | nil => intro _; simp [copyPlan]
+  | cons a as ih =>
+    intro hn
+    rw [List.map_cons, List.nodup_cons] at hn
+    have ih' := ih hn.2
+    unfold copyPlan at ih' ⊢
+    rw [List.filterMap_cons]
+    cases hs : srcOf a with
+    | none => simpa using ih'
+    | some p =>
+      simp only [List.map_cons, List.nodup_cons]
+      refine ⟨?_, ih'⟩
+      intro hm
+      obtain ⟨q, hq, hqe⟩ := List.mem_map.mp hm
+      obtain ⟨c, hc, hsc⟩ := List.mem_filterMap.mp hq
+      have h1 := srcOf_fst a p hs
+      have h2 := srcOf_fst c q hsc
+      apply hn.1
+      rw [← h1, ← hqe, h2]
+      exact List.mem_map_of_mem hc
+
+/-- **plan_in_column_order**: the targets of the INSERT are a sublist of the new table's columns, in their order. -/
+theorem plan_in_column_order : ∀ (to : List ToCol), ((copyPlan to).map (·.1)).Sublist (to.map (·.name)) := by
+  intro to
+  induction to with
+  | nil => simp [copyPlan]
+  | cons a as ih =>
+    unfold copyPlan at ih ⊢
+    rw [List.filterMap_cons]
+    cases hs : srcOf a with
+    | none => exact List.Sublist.cons _ ih
+    | some p =>
+      simp only [List.map_cons]
+      rw [srcOf_fst a p hs]
+      exact List.Sublist.cons_cons _ ih
+
+example : ((copyPlan toCols).map (·.1)) = [1, 2] := by decide
 
 end Props.C05
